@@ -397,6 +397,7 @@ class TensorDictBase(MutableMapping):
             propagate_lock=True,
         )
 
+    @_maybe_broadcast_other("__and__")
     def __and__(self, other: TensorDictBase | torch.Tensor | float) -> T:
         """Returns a new TensorDict instance with all tensors performing a logical or bitwise AND operation with the given value.
 
